@@ -20,7 +20,7 @@
 (*   FnM FnN                compare(a,b,true) / compare(a,b,false)         *)
 (*   LakeA LakeD            zbuf.NewComparatorNullsMax(key asc / desc) on  *)
 (*                          records {k: value} (the lake's object order)   *)
-(*   IsNullV IsDeep IsFloatV IsIntK IsBig   per-value facts (see below)    *)
+(*   IsNullV IsDeep IsFloatV IsIntK IsBig IsMissingV   per-value facts     *)
 (*   Samples                <<[cfg, cfg2, keys, keys2, out]>>: keys (keys2) *)
 (*                          = the token of sort key 1 (2) at each input    *)
 (*                          position, out = the permutation the real       *)
@@ -53,6 +53,7 @@ IsDeep   == Meta.isdeep
 IsFloatV == Meta.isfloat
 IsIntK   == Meta.isintk
 IsBig    == Meta.isbig
+IsMissingV == Meta.ismissing
 CmpAM    == JsonDeserialize("od_am.json")
 CmpAN    == JsonDeserialize("od_an.json")
 CmpDM    == JsonDeserialize("od_dm.json")
@@ -102,7 +103,8 @@ FnAt(cfg, a, b) == /\ cfg = "am" => FnM[a][b] = CmpAM[a][b]
 \* (7b) the lake's comparators (zbuf.NewComparatorNullsMax over the pool key, asc
 \* and desc; they append the value's bytes as a last key to make the order total)
 \* agree with the sort comparator wherever that one decides
-LakeAt(cfg, a, b) == /\ cfg = "am" => (CmpAM[a][b] # 0 => LakeA[a][b] = CmpAM[a][b])
+LakeAt(cfg, a, b) == (~IsMissingV[a] /\ ~IsMissingV[b]) =>     \* the lake reads missing as null
+                     /\ cfg = "am" => (CmpAM[a][b] # 0 => LakeA[a][b] = CmpAM[a][b])
                      /\ cfg = "dm" => (CmpDM[a][b] # 0 => LakeD[a][b] = CmpDM[a][b])
                      /\ cfg \in {"am", "dm"} => (IF cfg = "am" THEN LakeA ELSE LakeD)[a][b] = -(IF cfg = "am" THEN LakeA ELSE LakeD)[b][a]
 \* (8) nullsMax only moves nulls: values that are not null and contain no null
